@@ -303,6 +303,10 @@ def _tsd_template(outdir, name, marker):
         f.write('// header\n%s\n// footer\n' % marker)
 
 
+EXTRA_ARGS = ['-e', '{"match": ["style", "upload"], "arg_name": "contents", "arg_type": "Object", "arg_docstring": "The body."}',
+              '-e', '{"match": ["host", "content"], "arg_name": "domain", "arg_type": "string"}',
+              '-e', '{"match": ["auth", "user"], "arg_name": "select_user", "arg_type": "string"}']
+
 ROWS = [
     ('python_types', ['-p', 'pk'], None),
     ('python_types', ['-p', 'pk', '-r', '{ns}.{route}'], None),
@@ -315,6 +319,9 @@ ROWS = [
     ('tsd_client', ['tmpl.d.ts', 'out.d.ts'], lambda d: _tsd_template(d, 'tmpl.d.ts', '/*ROUTES*/')),
     ('tsd_types', ['tmpl.d.ts', 'out.d.ts'], lambda d: _tsd_template(d, 'tmpl.d.ts', '/*TYPES*/')),
     ('tsd_types', ['tmpl.d.ts'], lambda d: _tsd_template(d, 'tmpl.d.ts', '/*TYPES*/')),
+    # several --extra-arg options that match different attributes of ONE route (upload: style, host, auth)
+    ('tsd_types', ['tmpl.d.ts', 'out.d.ts'] + EXTRA_ARGS, lambda d: _tsd_template(d, 'tmpl.d.ts', '/*TYPES*/')),
+    ('js_types', ['types.js'] + EXTRA_ARGS, None),
     ('swift_types', [], None),
     ('swift_types', ['--objc'], None),
     ('swift_client', SWIFT_CLIENT, None),
